@@ -272,6 +272,7 @@ type Expr struct {
 	Class string   `json:"class"`           // num | bool | str | wild
 	Typed []string `json:"typed,omitempty"` // T for `const c T = E`
 	Conv  []string `json:"conv,omitempty"`  // T for `const c = T(E)`
+	Sites []string `json:"sites,omitempty"` // T for the implicit conversion sites (sites.go)
 }
 
 func (g *exprGen) expr(maxDepth int, allTypes bool) Expr {
@@ -316,6 +317,14 @@ func (g *exprGen) expr(maxDepth int, allTypes bool) Expr {
 		if e.Class == "num" || e.Class == "wild" {
 			e.Typed = append(e.Typed, g.pick(numTypes))
 			e.Conv = append(e.Conv, g.pick(numTypes))
+		}
+		if e.Class == "num" && g.r.Intn(2) == 0 {
+			// implicit conversion sites, mostly with the floating-point and complex types
+			if g.r.Intn(3) == 0 {
+				e.Sites = []string{g.pick(numTypes)}
+			} else {
+				e.Sites = []string{g.pick([]string{"float32", "complex64", "float64", "complex128"})}
+			}
 		}
 	}
 	return e
